@@ -3,7 +3,8 @@ from checks import register
 
 register(
     "C16",
-    modules=["contracts.c16"],
+    modules=["contracts.c16", "contracts.node_getters", "contracts.node_decisions", "contracts.node_edges"],
+    bounded=["checks.bounded_hooks:trie"],
     level="proof",
     explanation="EdgeRegister counters: exact functional contracts proved for all registry contents; "
                 "PrefixTree lookups: bounded (see coverage.bounded)",
